@@ -23,6 +23,8 @@ static cat_return_state sw_policy(struct hcall *h)
         if (k == sw_pre) return CAT_RETURN_STATE_HOLD;
         return CAT_RETURN_STATE_OK;
 }
+static void (*eng_unit)(bool, bool, const char *, size_t, bool, bool); static char seen[8][4]; static int nseen;
+static void sw_on_unit(bool isA, bool raw, const char *text, size_t len, bool a, bool b) { if (!isA && nseen < 8) { snprintf(seen[nseen], sizeof seen[0], "%.2s", text); nseen++; } if (eng_unit) eng_unit(isA, raw, text, len, a, b); }
 #define N_SWEEP_A (4 * 4 * 2 * 4 * 4)
 #define N_SWEEP_B (4 * 2 * 2 * 2)
 #define N_SWEEP (N_SWEEP_A + N_SWEEP_B)
@@ -56,11 +58,17 @@ static void sweep_case(long item)
         /* an event triggered during the hold must be delivered within a bound while output is accepted */
         sch_eager(&WS);
         long u0 = PU.units;
-        eng_trigger(1, CAT_CMD_TYPE_READ);
-        long B = 32 + 4 * ((long)W.capU + 16), used = 0;
-        for (; used < B && PU.units == u0; used++) { cat_status s = svc(); eng_after_service(s); if (case_failed()) goto out; }
-        CNT("events_triggered_during_hold");
-        if (PU.units == u0) { viol("C14", "event-not-delivered-during-hold", "event triggered during a hold was not emitted within %ld service calls", B); goto out; }
+        /* as many events as the queue takes (at most three), of two commands: all of them are delivered during the hold, each once, in the order they were accepted */
+        static const int ev_ci[3] = { 1, 2, 1 }; static const cat_cmd_type ev_ty[3] = { CAT_CMD_TYPE_READ, CAT_CMD_TYPE_READ, CAT_CMD_TYPE_TEST };
+        int nev = QCAP < 3 ? QCAP : 3;
+        eng_unit = ON_UNIT; ON_UNIT = sw_on_unit; nseen = 0;
+        for (int k = 0; k < nev; k++) eng_trigger(ev_ci[k], ev_ty[k]);
+        long B = (32 + 4 * ((long)W.capU + 16)) * nev, used = 0;
+        for (; used < B && PU.units < u0 + nev; used++) { cat_status s = svc(); eng_after_service(s); if (case_failed()) goto out; }
+        ON_UNIT = eng_unit;
+        CNTN("events_triggered_during_hold", nev);
+        if (PU.units < u0 + nev) { viol("C14", "event-not-delivered-during-hold", "%d event(s) triggered during a hold, %ld emitted within %ld service calls", nev, PU.units - u0, B); goto out; }
+        for (int k = 0; k < nev && k < nseen; k++) if (strncmp(seen[k], W.cmd[ev_ci[k]]->name, 2) != 0 && !(ev_ci[k] == 2 && seen[k][0] == '~')) {      /* the handler of "+R" may replace the text by a "~<n>" payload */ viol("C14", "event-not-delivered-during-hold", "event %d accepted during the hold was for \"%s\" but unit %d is \"%s...\"", k, W.cmd[ev_ci[k]]->name, k, seen[k]); goto out; }
         if (INPOS != inpos_at_hold) viol("C14", "read-during-hold", "input consumed during the hold");
         /* release */
         if (sw_path == 0) eng_hold_exit((cat_status)API_STATUS[st4]);
